@@ -741,6 +741,15 @@ def _run(sc, S, obs):
                 o['insights'] = {'error': repr(e)}
             o['control'] = control_snapshot(pool)
             o['alive_after'] = sorted(t.role for t in S.threads[1:] if t.started and not t.done)
+            if kind in ('terminate', 'stop_and_join') and o['alive_after'] and o.get('outcome') == 'ok':
+                # a helper that is about to end by itself is not a leak: what is still there after 2 virtual seconds is
+                try:
+                    sim.time_shim.sleep(2.0)
+                except (sim.Stuck, sim.SimAbort):
+                    raise
+                except BaseException:  # noqa
+                    pass
+                o['alive_after'] = sorted(t.role for t in S.threads[1:] if t.started and not t.done)
             o['instances_alive'] = [i for i, t in enumerate(S.threads) if t.role.startswith('Worker-') and t.started and not t.done]
     finally:
         t_exit0 = S.now
